@@ -61,6 +61,10 @@ def check_read(f, c, spec, scaled, who, res):
         v = f.variables[k]
         got = np.asarray(v[...])
         m = c['meta'][k]
+        if m.get('norow') and scaled:
+            # no table row of its own: scale/unit are not defined by the
+            # tables; only the raw read is judged for this tracer
+            continue
         exp = raw * np.float32(m['scale']) if scaled else raw
         if got.shape != exp.shape:
             problems.append('%s: %s shape %s, encoded %s' % (who, k,
@@ -189,6 +193,43 @@ def run(spec, res):
         except Exception as e:
             res.hook('writer.return')
             problems.append('writer / re-read raised %r' % (e,))
+        # (5) write from a SCALED read: the file must hold the raw values
+        # again (up to one float32 rounding of x*s/s) and re-read the same
+        od2 = os.path.join(d, 'out2')
+        os.mkdir(od2)
+        out2 = os.path.join(od2, 'out.bpch')
+        try:
+            o = pncgen(fs, out2, format='bpch', verbose=0)
+            o.close()
+            res.hook('writer.return')
+            dec = refbpch.decode(open(out2, 'rb').read())
+            ref = refbpch.decode(img)
+            if len(dec['blocks']) != len(ref['blocks']):
+                problems.append('write from the scaled read holds %d blocks, '
+                                'original %d' % (len(dec['blocks']),
+                                                 len(ref['blocks'])))
+            else:
+                for bi, (a, b) in enumerate(zip(dec['blocks'],
+                                                ref['blocks'])):
+                    if (a['category'], a['tracerid']) != (b['category'],
+                                                          b['tracerid']):
+                        problems.append('write from the scaled read: block '
+                                        '%d is %s/%d, original %s/%d' % (
+                                            bi, a['category'], a['tracerid'],
+                                            b['category'], b['tracerid']))
+                        break
+                    if a['data'].shape != b['data'].shape or not np.allclose(
+                            a['data'].astype('f8'), b['data'].astype('f8'),
+                            rtol=8 * np.finfo('f4').eps, atol=0):
+                        problems.append(
+                            'write from the scaled read: raw values of block '
+                            '%d (%s tracer %d) are off by a factor ~%.3g'
+                            % (bi, a['category'], a['tracerid'], float(
+                                np.median(a['data'] / b['data']))))
+                        break
+        except Exception as e:
+            res.hook('writer.return')
+            problems.append('writer (from scaled read) raised %r' % (e,))
         # (4) block-walking reader
         try:
             f2 = bpch2(path)
@@ -199,6 +240,8 @@ def run(spec, res):
                 if k not in f2.variables.keys():
                     p2.append('bpch2: variable %s not exposed (%s)'
                               % (k, list(f2.variables.keys())[:5]))
+                    continue
+                if c['meta'][k].get('norow'):
                     continue
                 a = np.asarray(f2.variables[k][...])
                 b = np.asarray(fs.variables[k][...])
@@ -232,17 +275,34 @@ def run_truncation(spec, res, judge_prefix, classify, record_edges):
                   diaginfo=os.path.join(d, 'diaginfo.dat'), noscale=True)
         keys = list(c['vars']) + ['tau0', 'tau1']
 
-        def read(path):
-            f = bpch1(path, **kw)
+        from PseudoNetCDF.geoschemfiles import bpch as bpchm, bpch2
+
+        def read(path, reader='bpch1'):
+            if reader == 'bpch1':
+                f = bpch1(path, **kw)
+            elif reader == 'bpch':
+                # the public class: memory-mapped reader first, silent
+                # fall-back to the block-walking reader when that raises
+                f = bpchm(path, **kw)
+            else:
+                f = bpch2(path, noscale=True)
             out = {}
             for k in keys:
-                out[k] = np.array(np.asarray(f.variables[k][...]), copy=True)
+                try:
+                    out[k] = np.array(np.asarray(f.variables[k][...]),
+                                      copy=True)
+                except harness.StepBudgetExceeded:
+                    raise
+                except Exception as e:
+                    out[k] = e      # this variable cannot be read: fine
             return len(f.dimensions['time']), out
         full_path = os.path.join(d, 'full.bpch')
         with open(full_path, 'wb') as fh:
             fh.write(img)
         try:
             nt, fv = read(full_path)
+            if any(isinstance(v, Exception) for v in fv.values()):
+                raise RuntimeError('unreadable variable in the full image')
         except Exception as e:
             res.note('inconclusive:full-image-unreadable:bpch')
             res.notes.setdefault('full_image_error', repr(e))
@@ -258,40 +318,113 @@ def run_truncation(spec, res, judge_prefix, classify, record_edges):
                 continue
             with open(ppath, 'wb') as fh:
                 fh.write(img[:cut])
-            problem = None
-            try:
-                with harness.step_budget(c14.BUDGET):
-                    gnt, got = read(ppath)
-                outcome = 'returned'
-                if gnt > nt:
-                    problem = 'exposes %d steps, full file has %d' % (gnt, nt)
-                else:
-                    for k in keys:
-                        a, b = got[k], fv[k][:gnt]
-                        if a.shape != b.shape or a.tobytes() != b.tobytes():
-                            problem = '%s of the truncated file differs ' \
-                                'from the full file (%d of %d steps ' \
-                                'exposed, shapes %s / %s)' % (
-                                    k, gnt, nt, a.shape, b.shape)
-                            break
-            except harness.StepBudgetExceeded as e:
-                outcome, problem = 'hang', 'does not terminate: %s' % e
-            except Exception:
-                outcome = 'raised'
-            res.hook('prefix.open')
-            res.hook('oracle.compare')
-            cls = classify(cut, edges, step_edges, hdr_end)
-            res.ev(digest([spec, cut]), True,
-                   ['fmt:bpch', 'cut:' + cls, 'outcome:' + outcome])
-            if problem:
-                key = (outcome, cls)
-                seen[key] = seen.get(key, 0) + 1
-                if seen[key] <= 2:
-                    res.viol('%s:bpch:%s' % (
-                        'no-termination' if outcome == 'hang'
-                        else 'silent-misread', cls),
-                        'bpch image of %d bytes (%d steps x %d tracers) cut '
-                        'at byte %d (%s): %s' % (
-                            len(img), spec['nt'], len(spec['tracers']), cut,
-                            cls, problem), fmt='bpch', cut=cut, cutclass=cls,
-                        outcome=outcome, nt=spec['nt'])
+            for reader in ('bpch1', 'bpch', 'bpch2'):
+                problem = None
+                fabricated = None
+                try:
+                    with harness.step_budget(c14.BUDGET):
+                        gnt, got = read(ppath, reader)
+                    outcome = 'returned'
+                    complete = sum(1 for e_ in step_edges if e_ <= cut)
+                    shorter = None
+                    if cut in edges:
+                        # bpch has no tracer or step count: a prefix that
+                        # ends on a block boundary is byte-identical to a
+                        # VALID file holding fewer blocks; the reader must
+                        # expose (a leading part of) exactly those blocks
+                        try:
+                            dec = refbpch.decode(img[:cut])
+                            shorter = {}
+                            for b in dec['blocks']:
+                                nm = [key for key, m in c['meta'].items()
+                                      if m['category'] == b['category'] and
+                                      m['tracerid'] == b['tracerid']][0]
+                                shorter.setdefault(nm, []).append(b['data'])
+                        except Exception:
+                            shorter = None
+                    if shorter is not None:
+                        outcome = 'returned-valid-shorter-file'
+                        nmax = max(len(v) for v in shorter.values())
+                        if gnt > nmax:
+                            problem = 'exposes %d steps, the (valid) ' \
+                                'shorter file holds at most %d' % (gnt, nmax)
+                        for k in c['vars']:
+                            if problem or isinstance(got.get(k), Exception):
+                                continue
+                            a = got[k]
+                            if k not in shorter:
+                                if a.shape[0] != 0:
+                                    problem = '%s exposed although the ' \
+                                        'shorter file has no block of ' \
+                                        'it' % k
+                                continue
+                            b = np.array(shorter[k][:a.shape[0]])
+                            if a.shape[0] > len(shorter[k]) or \
+                                    a.shape != b.shape or not np.array_equal(
+                                        a.astype('f4'), b):
+                                problem = '%s differs from the blocks of ' \
+                                    'the (valid) shorter file' % k
+                    elif gnt > complete:
+                        problem = 'exposes %d time steps but the prefix ' \
+                            'holds only %d complete ones (tau0 %s)' % (
+                                gnt, complete,
+                                None if isinstance(got.get('tau0'), Exception)
+                                else np.asarray(got.get('tau0')).tolist())
+                        # whatever is exposed must at least be GENUINE data
+                        # of the full file (never zero-filled or shifted)
+                        for k in keys:
+                            a = got[k]
+                            if isinstance(a, Exception):
+                                continue
+                            n = a.shape[0]
+                            if n > nt or a.shape[1:] != fv[k].shape[1:] or \
+                                    not np.array_equal(
+                                        a.astype(fv[k].dtype), fv[k][:n]):
+                                fabricated = '%s holds values that are ' \
+                                    'not those of the full file' % k
+                                break
+                    else:
+                        for k in keys:
+                            if isinstance(got[k], Exception):
+                                continue
+                            a, b = got[k], fv[k][:gnt]
+                            if a.shape != b.shape or not np.array_equal(
+                                    a.astype(b.dtype), b):
+                                problem = '%s of the truncated file differs ' \
+                                    'from the full file (%d of %d steps ' \
+                                    'exposed, shapes %s / %s)' % (
+                                        k, gnt, nt, a.shape, b.shape)
+                                break
+                except harness.StepBudgetExceeded as e:
+                    outcome, problem = 'hang', 'does not terminate: %s' % e
+                except Exception as e:
+                    outcome = 'raised'
+                    if os.environ.get('VERIF_DEBUG'):
+                        res.note('dbg:%s:%s:%s' % (reader, type(e).__name__,
+                                                   str(e)[:60]))
+                res.hook('prefix.open')
+                res.hook('oracle.compare')
+                cls = classify(cut, edges, step_edges, hdr_end)
+                res.ev(digest([spec, cut, reader]), True,
+                       ['fmt:' + reader, 'cut:' + cls, 'outcome:' + outcome])
+                if fabricated:
+                    res.viol('fabricated-values:%s:%s' % (reader, cls),
+                             '%s on a bpch image of %d bytes cut at byte %d '
+                             '(%s): %s' % (reader, len(img), cut, cls,
+                                           fabricated), fmt=reader, cut=cut)
+                if problem:
+                    key = (reader, outcome, cls)
+                    seen[key] = seen.get(key, 0) + 1
+                    if seen[key] <= 2:
+                        res.viol('%s:%s:%s' % (
+                            'no-termination' if outcome == 'hang'
+                            else 'silent-misread', reader, cls),
+                            '%s on a bpch image of %d bytes (%d steps x %d '
+                            'tracers) cut at byte %d (%s): %s' % (
+                                reader, len(img), spec['nt'],
+                                len(spec['tracers']), cut, cls, problem),
+                            fmt=reader, cut=cut, cutclass=cls,
+                            outcome=outcome, nt=spec['nt'],
+                            ntracers=len(spec['tracers']),
+                            complete_steps=sum(1 for e_ in step_edges
+                                               if e_ <= cut))
